@@ -27,6 +27,28 @@ def replay(beh: list[dict], variant: int) -> list[tuple[str, str]]:
         return [('C09/txn-strings/parse', f'{text!r} reads payee={txn.payee!r} narration={txn.narration!r}')]
     for ev in beh[1:]:
         others0 = (list(txn.tags), list(txn.links), txn.inline_comment, txn.date, len(txn.postings), dict(txn.meta.items()))
+        if ev.get('exc'):
+            # a refused raw-level assignment: a string node that lives in another transaction
+            donor_doc = tree.parse('2000-01-03 * "dp" "dn"\n    Assets:D\n')
+            donor = donor_doc.raw_directives[0].raw_payee
+            before_text = tree.text_of(f)
+            before_ids = [id(t) for t in f.token_store]
+            try:
+                setattr(txn, ev['op'], donor)
+                out.append((f'C19/txn-strings/{ev["op"]}/not-refused', f'{ev["op"]} = <a string of another transaction> was accepted'))
+                break
+            except ValueError:
+                pass
+            except Exception as e:  # noqa: BLE001
+                out.append((f'C19/txn-strings/{ev["op"]}/exception', f'{ev["op"]} = <attached> raised {type(e).__name__}: {e}'))
+                break
+            if tree.text_of(f) != before_text or [id(t) for t in f.token_store] != before_ids \
+                    or (txn.payee, txn.narration) != (VAL[ev['payee']], VAL[ev['narration']]) \
+                    or tree.text_of(donor_doc) != '2000-01-03 * "dp" "dn"\n    Assets:D\n':
+                out.append((f'C19/txn-strings/{ev["op"]}/refusal', f'refused {ev["op"]} = <attached> changed the document: '
+                                                                   f'{before_text.splitlines()[0]!r} -> {tree.text_of(f).splitlines()[0]!r}'))
+                break
+            continue
         try:
             setattr(txn, ev['op'], VAL[ev['v']])
         except Exception as e:  # noqa: BLE001
@@ -56,16 +78,27 @@ def replay(beh: list[dict], variant: int) -> list[tuple[str, str]]:
     return out
 
 
-def run(rep: common.Reporter, tier: str) -> dict:
+def run(rep: common.Reporter, tier: str, attached: bool = False) -> dict:
+    """attached=False: the C09 part (value-level histories); attached=True: the C19 part (histories that also contain
+    refused raw-level assignments; only the refusals are judged then)."""
     behs: list[str] = []
-    r = tlc.run('TxnStrings', dict(Vals='0..3', Depth='3' if tier == 'quick' else '4'), invariants=['PayeeImpliesNarration'],
+    r = tlc.run('TxnStrings', dict(Vals='0..3' if not attached else '0..2', Depth='3' if tier == 'quick' or attached else '4',
+                                   WithAttached='TRUE' if attached else 'FALSE'), invariants=['PayeeImpliesNarration'],
                 constraints=['Emit'], on_print=lambda p: behs.append(p[1]), timeout=1200)
     if not r.ok:
         rep.machinery_error(f'TxnStrings TLC run failed: {r.violated} {r.tail[-500:]}')
         return {}
     for n, s in enumerate(behs):
         beh = json.loads(s)
+        if attached and not any(ev.get('exc') for ev in beh[1:]):
+            continue
         for fp, msg in replay(beh, n):
+            if attached != fp.startswith('C19/'):
+                continue
             rep.violation(fp, {'what': msg, 'behaviour': beh})
     return {'states': r.distinct, 'transitions': r.generated, 'behaviours': len(behs),
             'sample': json.loads(behs[len(behs) // 2]) if behs else None}
+
+
+def refusal_part(rep: common.Reporter, tier: str) -> dict:
+    return run(rep, tier, attached=True)
